@@ -1,52 +1,45 @@
 package rules
 
 import (
-	"encoding/json"
-	"fmt"
-	"go/ast"
-	"go/token"
-	"go/types"
-	"strings"
-
-	"golang.org/x/tools/go/cfg"
-
 	"osmcheck/core"
 )
 
-// Unexported identifiers the C05 rules are keyed on: none by name. The codec helpers are found by role
-// (package-level functions of package osm that consult the exported variables CustomJSONMarshaler /
-// CustomJSONUnmarshaler; today marshalJSON and unmarshalJSON), the type reader as the function whose result the
-// dispatch switch of OSM.UnmarshalJSON switches on (today findType), the flattening as the expression that
-// feeds the `elements` key of the struct OSM.MarshalJSON marshals (today o.Objects()).
+// Unexported identifiers the C05 rules are keyed on: none. The codec helpers are found by role (package-level
+// functions of package osm that consult the exported variables CustomJSONMarshaler / CustomJSONUnmarshaler); the
+// writer and the reader are the MarshalJSON / UnmarshalJSON methods of osm.OSM with everything they call. The rules
+// observe what these methods do under abstract inputs (rules/c05_model.go on top of the interpreter of
+// rules/c03_eval.go); which helper contains which statement, local names and the surface form of the control flow do
+// not matter.
 
 func init() {
 	register(&core.Property{
 		ID:    "C05",
 		Title: "OSM JSON output is osmjson-shaped and round-trips up to tag order",
-		Explanation: "Structural necessary conditions on the hand-written JSON codec of package osm: " +
-			"(J1) every exported field of osm.OSM is written by OSM.MarshalJSON, under a top-level key or through the flattening that feeds the `elements` key, and every Go type that flattening can append has a field with JSON key `type` whose type's MarshalJSON returns one string literal L(T); " +
-			"(J2) OSM.UnmarshalJSON switches on the `type` key, has for every L(T) a case that unmarshals into a new T and stores it into the OSM field holding *T, ends in an error default, and reads every top-level key OSM.MarshalJSON writes back into the field it was written from; " +
+		Explanation: "Structural necessary conditions on the hand-written JSON codec of package osm, decided on the observed behaviour of its MarshalJSON / UnmarshalJSON methods (explored path by path, with everything they call, by an abstract interpreter under fixed abstract inputs): " +
+			"(J1) with every field set, on every path OSM.MarshalJSON hands the codec one struct in which every exported field of osm.OSM is carried, under a top-level key or as a member of the list under `elements`; every Go type that list can hold has a field with JSON key `type` whose type's MarshalJSON returns, on every path, one string literal L(T); " +
+			"(J2) OSM.UnmarshalJSON dispatches on the `type` key decoded from the element's own bytes: for every L(T) the element is unmarshalled into a fresh T that the OSM field holding *T holds when the method returns; for any other value every path returns a non-nil error; every top-level key the writer writes reaches the field it was written from; " +
 			"(J3) L(T) equals T's XML element name and the osm.Type constant T's object id decodes to; " +
-			"(J4) in every UnmarshalJSON method, a decoded shim field of interface or pointer type reaches a formatting/conversion call (fmt, strconv, unchecked type assertion, dereference) only on paths where it was tested non-nil (go/cfg dominance), so an absent key stays empty; " +
-			"(J5) shapes: Tags marshal as map[string]string, WayNodes as []int64 built from ID, Relation.Members is never omitted and the empty branch of Members.MarshalJSON returns `[]`, a zero Date marshals as null, the osmjson keys of tables/osmjson.json are carried by the documented fields; every (un)marshal operation of the codec goes through the helpers that consult the installed codec (a direct encoding/json call is accepted only on operands whose JSON form involves no Go-level convention: basic types, slices and string-keyed maps of them). " +
+			"(J4) in every UnmarshalJSON method, with an interface- or pointer-typed document field nil (key absent) no path formats it (fmt, strconv), dereferences it or asserts its type unchecked, so an absent key stays empty; " +
+			"(J5) shapes: Tags marshal a map[string]string, WayNodes a []int64 filled from the way nodes' ID, Relation.Members is never omitted and an empty Members marshals as the literal `[]`, a zero Date as the literal null, the osmjson keys of tables/osmjson.json are carried by the documented fields; each codec helper performs exactly one operation with its parameters, through encoding/json when no codec is installed and through the installed codec otherwise; every (un)marshal operation reached from a MarshalJSON/UnmarshalJSON method uses the installed codec whenever one is installed (a direct encoding/json call is accepted only on operands whose JSON form involves no Go-level convention, or on paths taken only when no codec is installed) and never touches the codec variable while it is nil; " +
+			"(J6) with an interface-typed document field (version: number or string) non-nil and of unknown dynamic type, a value computed from it reaches the receiver on every path that returns without error. " +
 			"NOT decided: equality of round-tripped values, tag order, and whether a user-installed codec implements JSON and Go's struct-tag conventions the way encoding/json does (a run-time configuration).",
-		Assumptions: []string{"go/types, go/cfg (x/tools v0.29.0)", "documented naming rules of encoding/json (struct tags, omitempty, Marshaler/Unmarshaler in the method set)", "tables/osmjson.json transcribes the osmjson documentation correctly"},
-		LevelText:   "Structural necessary conditions of the osmjson shape and of the JSON round trip: the writer's flattening and the reader's dispatch table agree type by type on one literal per type, which equals the XML name and the Type constant; optional decoded fields are nil-tested on every path before being formatted; container shapes and key names match osmjson; the codec helpers cannot be bypassed. Value equality and third-party codec behaviour are not decided.",
-		LevelNote:   "Trusts the type checker, go/cfg dominance and the documented naming rules of encoding/json; covers package osm's hand-written MarshalJSON/UnmarshalJSON methods and the functions they call.",
-		Technique:   "type-resolved writer/reader table agreement (flattening vs dispatch switch), struct-tag model of encoding/json, CFG dominance of nil tests over formatting calls, call-site routing rule for the codec helpers",
+		Assumptions: []string{"go/types (x/tools v0.29.0)", "documented naming rules of encoding/json (struct tags, omitempty, Marshaler/Unmarshaler in the method set)", "the path-enumerating abstract interpreter of rules/c03_eval.go (one iteration per loop, lists built on the path unrolled, calls outside the repository and the codec helpers opaque and assumed to succeed, function literals / defer / goroutines make the exploration undecided)", "tables/osmjson.json transcribes the osmjson documentation correctly"},
+		LevelText:   "Structural necessary conditions of the osmjson shape and of the JSON round trip: the writer's flattening and the reader's dispatch agree type by type on one literal per type, which equals the XML name and the Type constant; an absent optional key is never formatted or dereferenced; a value of any dynamic type reaches the receiver; container shapes and key names match osmjson; the installed codec is used whenever one is installed. Value equality and third-party codec behaviour are not decided.",
+		LevelNote:   "Trusts the type checker, the documented naming rules of encoding/json and the abstract interpreter's modelling of the Go statements the codec uses (anything it does not model is reported as undecided); covers package osm's hand-written MarshalJSON/UnmarshalJSON methods and the functions they call.",
+		Technique:   "abstract interpretation of the JSON codec methods over a finite set of scenarios (value of the `type` key, absent / dynamically typed document fields, codec installed or not, empty receiver), observing the (un)marshal operations with symbolic operands and the final receiver state; struct-tag model of encoding/json; writer/reader agreement on the observations",
 		DesignRef:   "DESIGN.md §5 C05, §3.3",
 		Rules: []*core.Rule{
-			{ID: "J1", Floor: 19, Doc: "every field of OSM is carried into the document; every flattened element type carries a literal JSON `type` (flattening anchor + 12 fields + 6 element types)", Run: c05J1},
-			{ID: "J2", Floor: 13, Doc: "reader table: type key, one well-formed case per L(T), error default, top-level keys read back", Run: c05J2},
+			{ID: "J1", Floor: 19, Doc: "every field of OSM is carried into the document on every path; every element type carries a literal JSON `type` (flattening anchor + 12 fields + 6 element types)", Run: c05J1},
+			{ID: "J2", Floor: 14, Doc: "reader: dispatch on the element's type key, one fresh well-placed object per L(T), error for other values, top-level keys read back (1 + 6 + 1 + 6)", Run: c05J2},
 			{ID: "J3", Floor: 6, Doc: "L(T) = XML name of T = Type constant of T's object id", Run: c05J3},
-			{ID: "J4", Floor: 3, Doc: "nilable shim fields are nil-tested on every path to a formatting/conversion call", Run: c05J4},
-			{ID: "J5", Floor: 56, Doc: "shapes (tags object, node id array, members never null, null date), osmjson key names, codec routing", Run: c05J5},
-			{ID: "J6", Floor: 1, Doc: "interface-typed shim fields (version: number or string) are converted totally over dynamic types", Run: c05J6},
+			{ID: "J4", Floor: 3, Doc: "absent nilable document fields are never formatted / dereferenced / asserted (3 decoding UnmarshalJSON methods)", Run: c05J4},
+			{ID: "J5", Floor: 42, Doc: "shapes (tags object, node id array, members never null, null date: 5), osmjson key names (35), codec helpers (2); plus one obligation per observed codec operation", Run: c05J5},
+			{ID: "J6", Floor: 1, Doc: "interface-typed document fields (version: number or string) reach the receiver whatever their dynamic type", Run: c05J6},
 		},
 		Mutants: []core.Mutant{
 			{Name: "j6-version-type-switch-no-default", File: "osm.go", Find: "\tif s.Version != nil {\n\t\to.Version = fmt.Sprintf(\"%v\", s.Version)\n\t}", Replace: "\tswitch v := s.Version.(type) {\n\tcase string:\n\t\to.Version = v\n\tcase float64:\n\t\to.Version = fmt.Sprint(v)\n\t}", ExpectRule: "J6", ExpectConstruct: "Version"},
 			{Name: "way-type-key-renamed", File: "way.go", Find: "xmlNameJSONTypeWay `xml:\"way\" json:\"type\"`", Replace: "xmlNameJSONTypeWay `xml:\"way\" json:\"kind\"`", ExpectRule: "J1", ExpectConstruct: "type@Way"},
-			{Name: "license-not-written", File: "osm.go", Find: "}{o.Version, o.Generator, o.Copyright, o.Attribution, o.License, o.Objects()}", Replace: "}{o.Version, o.Generator, o.Copyright, o.Attribution, \"\", o.Objects()}", ExpectRule: "J1", ExpectConstruct: "carried@OSM.License"},
+			{Name: "license-not-written", File: "osm.go", Find: "}{o.Version, o.Generator, o.Copyright, o.Attribution, o.License, o.Bounds, elements}", Replace: "}{o.Version, o.Generator, o.Copyright, o.Attribution, \"\", o.Bounds, elements}", ExpectRule: "J1", ExpectConstruct: "carried@OSM.License"},
 			{Name: "note-type-not-literal", File: "json.go", Find: "func (x xmlNameJSONTypeNote) MarshalJSON() ([]byte, error) {\n\treturn []byte(`\"note\"`), nil", Replace: "func (x xmlNameJSONTypeNote) MarshalJSON() ([]byte, error) {\n\treturn marshalJSON(x.Local)", ExpectRule: "J1", ExpectConstruct: "type@Note"},
 			{Name: "reader-no-user-case", File: "osm.go", Find: "\t\tcase \"user\":\n\t\t\tu := &User{}\n\t\t\terr = unmarshalJSON(data, u)\n\t\t\tif err != nil {\n\t\t\t\treturn err\n\t\t\t}\n\t\t\to.Users = append(o.Users, u)\n", Replace: "", ExpectRule: "J2", ExpectConstruct: "case \"user\""},
 			{Name: "reader-changeset-label", File: "osm.go", Find: "\t\tcase \"changeset\":\n\t\t\tcs := &Changeset{}", Replace: "\t\tcase \"changesets\":\n\t\t\tcs := &Changeset{}", ExpectRule: "J2", ExpectConstruct: "case \"changeset\""},
@@ -56,13 +49,13 @@ func init() {
 			{Name: "relation-literal-rel", File: "json.go", Find: "return []byte(`\"relation\"`), nil", Replace: "return []byte(`\"rel\"`), nil", ExpectRule: "J3", ExpectConstruct: "name@Relation"},
 			{Name: "type-const-way-capitalised", File: "feature.go", Find: "TypeWay       Type = \"way\"", Replace: "TypeWay       Type = \"Way\"", ExpectRule: "J3", ExpectConstruct: "name@Way"},
 			{Name: "generator-interface-formatted", File: "osm.go",
-				Find:       "\t\tGenerator   string             `json:\"generator\"`\n\t\tCopyright   string             `json:\"copyright\"`\n\t\tAttribution string             `json:\"attribution\"`\n\t\tLicense     string             `json:\"license\"`\n\t\tElements    []nocopyRawMessage `json:\"elements\"`\n\t}{}\n\n\terr := unmarshalJSON(data, &s)\n\tif err != nil {\n\t\treturn err\n\t}\n\n\to.Version = fmt.Sprintf(\"%v\", s.Version)\n\to.Generator = s.Generator",
-				Replace:    "\t\tGenerator   interface{}        `json:\"generator\"`\n\t\tCopyright   string             `json:\"copyright\"`\n\t\tAttribution string             `json:\"attribution\"`\n\t\tLicense     string             `json:\"license\"`\n\t\tElements    []nocopyRawMessage `json:\"elements\"`\n\t}{}\n\n\terr := unmarshalJSON(data, &s)\n\tif err != nil {\n\t\treturn err\n\t}\n\n\to.Version = fmt.Sprintf(\"%v\", s.Version)\n\to.Generator = fmt.Sprint(s.Generator)",
-				ExpectRule: "J4", ExpectConstruct: "s.Generator"},
+				Find:       "\t\tGenerator   string             `json:\"generator\"`\n\t\tCopyright   string             `json:\"copyright\"`\n\t\tAttribution string             `json:\"attribution\"`\n\t\tLicense     string             `json:\"license\"`\n\t\tBounds      *Bounds            `json:\"bounds\"`\n\t\tElements    []nocopyRawMessage `json:\"elements\"`\n\t}{}\n\n\terr := unmarshalJSON(data, &s)\n\tif err != nil {\n\t\treturn err\n\t}\n\n\tif s.Version != nil {\n\t\to.Version = fmt.Sprintf(\"%v\", s.Version)\n\t}\n\to.Generator = s.Generator",
+				Replace:    "\t\tGenerator   interface{}        `json:\"generator\"`\n\t\tCopyright   string             `json:\"copyright\"`\n\t\tAttribution string             `json:\"attribution\"`\n\t\tLicense     string             `json:\"license\"`\n\t\tBounds      *Bounds            `json:\"bounds\"`\n\t\tElements    []nocopyRawMessage `json:\"elements\"`\n\t}{}\n\n\terr := unmarshalJSON(data, &s)\n\tif err != nil {\n\t\treturn err\n\t}\n\n\tif s.Version != nil {\n\t\to.Version = fmt.Sprintf(\"%v\", s.Version)\n\t}\n\to.Generator = fmt.Sprint(s.Generator)",
+				ExpectRule: "J4", ExpectConstruct: "doc.Generator"},
 			{Name: "license-pointer-dereferenced", File: "osm.go",
-				Find:       "\t\tLicense     string             `json:\"license\"`\n\t\tElements    []nocopyRawMessage `json:\"elements\"`\n\t}{}\n\n\terr := unmarshalJSON(data, &s)\n\tif err != nil {\n\t\treturn err\n\t}\n\n\to.Version = fmt.Sprintf(\"%v\", s.Version)\n\to.Generator = s.Generator\n\to.Copyright = s.Copyright\n\to.Attribution = s.Attribution\n\to.License = s.License",
-				Replace:    "\t\tLicense     *string            `json:\"license\"`\n\t\tElements    []nocopyRawMessage `json:\"elements\"`\n\t}{}\n\n\terr := unmarshalJSON(data, &s)\n\tif err != nil {\n\t\treturn err\n\t}\n\n\to.Version = fmt.Sprintf(\"%v\", s.Version)\n\to.Generator = s.Generator\n\to.Copyright = s.Copyright\n\to.Attribution = s.Attribution\n\to.License = *s.License",
-				ExpectRule: "J4", ExpectConstruct: "s.License"},
+				Find:       "\t\tLicense     string             `json:\"license\"`\n\t\tBounds      *Bounds            `json:\"bounds\"`\n\t\tElements    []nocopyRawMessage `json:\"elements\"`\n\t}{}\n\n\terr := unmarshalJSON(data, &s)\n\tif err != nil {\n\t\treturn err\n\t}\n\n\tif s.Version != nil {\n\t\to.Version = fmt.Sprintf(\"%v\", s.Version)\n\t}\n\to.Generator = s.Generator\n\to.Copyright = s.Copyright\n\to.Attribution = s.Attribution\n\to.License = s.License",
+				Replace:    "\t\tLicense     *string            `json:\"license\"`\n\t\tBounds      *Bounds            `json:\"bounds\"`\n\t\tElements    []nocopyRawMessage `json:\"elements\"`\n\t}{}\n\n\terr := unmarshalJSON(data, &s)\n\tif err != nil {\n\t\treturn err\n\t}\n\n\tif s.Version != nil {\n\t\to.Version = fmt.Sprintf(\"%v\", s.Version)\n\t}\n\to.Generator = s.Generator\n\to.Copyright = s.Copyright\n\to.Attribution = s.Attribution\n\to.License = *s.License",
+				ExpectRule: "J4", ExpectConstruct: "doc.License"},
 			{Name: "members-omitempty", File: "relation.go", Find: "Members Members `xml:\"member\" json:\"members\"`", Replace: "Members Members `xml:\"member\" json:\"members,omitempty\"`", ExpectRule: "J5", ExpectConstruct: "shape@Relation.Members"},
 			{Name: "members-empty-null", File: "relation.go", Find: "return []byte(`[]`), nil", Replace: "return []byte(`null`), nil", ExpectRule: "J5", ExpectConstruct: "shape@Members.MarshalJSON"},
 			{Name: "date-zero-empty-string", File: "note.go", Find: "return []byte(`null`), nil", Replace: "return []byte(`\"\"`), nil", ExpectRule: "J5", ExpectConstruct: "shape@Date.MarshalJSON"},
@@ -73,1605 +66,6 @@ func init() {
 			{Name: "members-custom-codec-direct", File: "relation.go", Find: "return marshalJSON([]Member(ms))", Replace: "return CustomJSONMarshaler.Marshal([]Member(ms))", ExpectRule: "J5", ExpectConstruct: "codec@Members.MarshalJSON"},
 			{Name: "helper-branches-swapped", File: "json.go", Find: "if CustomJSONUnmarshaler == nil {", Replace: "if CustomJSONUnmarshaler != nil {", ExpectRule: "J5", ExpectConstruct: "helper@unmarshalJSON"},
 		},
+		Benign: c05Benign,
 	})
-}
-
-// ---- codec helpers and (un)marshal calls ---------------------------------------------------------
-
-// c05Helpers finds the codec helper functions by role: package-level functions of package osm whose body
-// mentions the exported variable CustomJSONMarshaler (-> "marshal") or CustomJSONUnmarshaler (-> "unmarshal").
-func c05Helpers(p *core.Program) map[*types.Func]string {
-	pk := c03OsmPkg(p)
-	out := map[*types.Func]string{}
-	mv := pk.Types.Scope().Lookup("CustomJSONMarshaler")
-	uv := pk.Types.Scope().Lookup("CustomJSONUnmarshaler")
-	for _, fi := range allFuncs(pk) {
-		if fi.Obj.Type().(*types.Signature).Recv() != nil {
-			continue
-		}
-		if mv != nil && usesObj(pk.TypesInfo, fi.Decl.Body, mv) {
-			out[fi.Obj] = "marshal"
-		}
-		if uv != nil && usesObj(pk.TypesInfo, fi.Decl.Body, uv) {
-			out[fi.Obj] = "unmarshal"
-		}
-	}
-	return out
-}
-
-// c05Codec is one marshal / unmarshal operation in a function body.
-type c05CodecCall struct {
-	call    *ast.CallExpr
-	dir     string   // marshal | unmarshal
-	operand ast.Expr // value marshalled / destination (a leading & removed)
-	via     string   // helper | std | custom (a method called on a Custom* variable)
-	fn      *types.Func
-}
-
-func c05CodecCalls(p *core.Program, info *types.Info, body ast.Node, helpers map[*types.Func]string) []c05CodecCall {
-	pk := c03OsmPkg(p)
-	mv := pk.Types.Scope().Lookup("CustomJSONMarshaler")
-	uv := pk.Types.Scope().Lookup("CustomJSONUnmarshaler")
-	var out []c05CodecCall
-	ast.Inspect(body, func(n ast.Node) bool {
-		call, ok := n.(*ast.CallExpr)
-		if !ok {
-			return true
-		}
-		fn := callee(info, call)
-		cc := c05CodecCall{call: call, fn: fn}
-		switch {
-		case fn != nil && helpers[fn] != "":
-			cc.dir, cc.via = helpers[fn], "helper"
-		case isPkgFunc(fn, "encoding/json", "Marshal") || isPkgFunc(fn, "encoding/json", "MarshalIndent"):
-			cc.dir, cc.via = "marshal", "std"
-		case isPkgFunc(fn, "encoding/json", "Unmarshal"):
-			cc.dir, cc.via = "unmarshal", "std"
-		case isMethod(fn, "encoding/json.Encoder", "Encode"):
-			cc.dir, cc.via = "marshal", "std"
-		case isMethod(fn, "encoding/json.Decoder", "Decode"):
-			cc.dir, cc.via = "unmarshal", "std"
-		default:
-			sel, ok := ast.Unparen(call.Fun).(*ast.SelectorExpr)
-			if !ok {
-				return true
-			}
-			switch o := objOf(info, sel.X); {
-			case o != nil && o == mv:
-				cc.dir, cc.via = "marshal", "custom"
-			case o != nil && o == uv:
-				cc.dir, cc.via = "unmarshal", "custom"
-			default:
-				return true
-			}
-		}
-		if len(call.Args) == 0 {
-			return true
-		}
-		op := call.Args[len(call.Args)-1]
-		if cc.dir == "marshal" {
-			op = call.Args[0]
-		}
-		op = ast.Unparen(op)
-		if ue, ok := op.(*ast.UnaryExpr); ok && ue.Op == token.AND {
-			op = ast.Unparen(ue.X)
-		}
-		cc.operand = op
-		out = append(out, cc)
-		return true
-	})
-	return out
-}
-
-// c05ByteLit evaluates `[]byte(<constant string>)`.
-func c05ByteLit(info *types.Info, e ast.Expr) (string, bool) {
-	call, ok := ast.Unparen(e).(*ast.CallExpr)
-	if !ok || len(call.Args) != 1 {
-		return "", false
-	}
-	tv, ok := info.Types[call.Fun]
-	if !ok || !tv.IsType() {
-		return "", false
-	}
-	sl, ok := tv.Type.Underlying().(*types.Slice)
-	if !ok {
-		return "", false
-	}
-	if b, ok := sl.Elem().Underlying().(*types.Basic); !ok || b.Kind() != types.Uint8 {
-		return "", false
-	}
-	return constString(info, call.Args[0])
-}
-
-// c05Returns lists the return statements of a function body (function literals excluded).
-func c05Returns(body *ast.BlockStmt) []*ast.ReturnStmt {
-	var out []*ast.ReturnStmt
-	inspectNoLit(body, func(n ast.Node) bool {
-		if rs, ok := n.(*ast.ReturnStmt); ok {
-			out = append(out, rs)
-		}
-		return true
-	})
-	return out
-}
-
-// c05TypeLiteral returns the string L such that MarshalJSON of t is `return []byte(`"L"`), nil` and nothing else.
-func c05TypeLiteral(p *core.Program, t types.Type) (string, token.Pos, string) {
-	if c03Implements(p, t, "encoding/json", "Marshaler") == "" {
-		return "", token.NoPos, c03Short(t) + " has no MarshalJSON method: the key's value is run-time data, not a fixed type name"
-	}
-	fi := c03FuncInfoOf(p, c03Method(t, "MarshalJSON"))
-	if fi == nil {
-		return "", token.NoPos, "MarshalJSON of " + c03Short(t) + " is declared outside the repository"
-	}
-	rets := c05Returns(fi.Decl.Body)
-	if len(rets) != 1 || len(rets[0].Results) != 2 {
-		return "", fi.Decl.Pos(), fmt.Sprintf("%s has %d return statements; accepted: exactly one `return []byte(`\"name\"`), nil`", fi.Name(), len(rets))
-	}
-	raw, ok := c05ByteLit(fi.Pkg.TypesInfo, rets[0].Results[0])
-	if !ok {
-		return "", rets[0].Pos(), fi.Name() + " does not return a constant byte string: `" + c03Src(rets[0]) + "`"
-	}
-	var s string
-	if err := json.Unmarshal([]byte(raw), &s); err != nil {
-		return "", rets[0].Pos(), fmt.Sprintf("%s returns %s, which is not a JSON string", fi.Name(), raw)
-	}
-	return s, rets[0].Pos(), ""
-}
-
-// ---- the flattening ------------------------------------------------------------------------------
-
-// c05Shim is a struct value (un)marshalled in place of the receiver.
-type c05Shim struct {
-	Var    types.Object // local variable holding it (may be nil for an inline literal)
-	Type   types.Type
-	Values map[*types.Var]ast.Expr // marshal side: initialiser per field
-	Pos    token.Pos
-}
-
-// c05MarshalShim finds the struct OSM.MarshalJSON hands to the codec.
-func c05MarshalShim(r *core.R, fi *FuncInfo, helpers map[*types.Func]string) *c05Shim {
-	info := fi.Pkg.TypesInfo
-	for _, cc := range c05CodecCalls(r.P, info, fi.Decl.Body, helpers) {
-		if cc.dir != "marshal" {
-			continue
-		}
-		var lit *ast.CompositeLit
-		sh := &c05Shim{Pos: cc.call.Pos()}
-		switch x := cc.operand.(type) {
-		case *ast.CompositeLit:
-			lit = x
-		case *ast.Ident:
-			sh.Var = objOf(info, x)
-			ast.Inspect(fi.Decl.Body, func(n ast.Node) bool {
-				if as, ok := n.(*ast.AssignStmt); ok {
-					for i, l := range as.Lhs {
-						if i < len(as.Rhs) && objOf(info, l) == sh.Var {
-							if cl, ok := ast.Unparen(as.Rhs[i]).(*ast.CompositeLit); ok {
-								lit = cl
-							}
-						}
-					}
-				}
-				return true
-			})
-		}
-		if lit == nil {
-			continue
-		}
-		st, ok := info.TypeOf(lit).Underlying().(*types.Struct)
-		if !ok {
-			continue
-		}
-		sh.Type = info.TypeOf(lit)
-		sh.Values = map[*types.Var]ast.Expr{}
-		for i, el := range lit.Elts {
-			if kv, ok := el.(*ast.KeyValueExpr); ok {
-				if k, _ := kv.Key.(*ast.Ident); k != nil {
-					for j := 0; j < st.NumFields(); j++ {
-						if st.Field(j).Name() == k.Name {
-							sh.Values[st.Field(j)] = kv.Value
-						}
-					}
-				}
-			} else if i < st.NumFields() {
-				sh.Values[st.Field(i)] = el
-			}
-		}
-		return sh
-	}
-	return nil
-}
-
-// c05Flat is one Go type the flattening can put into the elements array.
-type c05Flat struct {
-	T   types.Type // static type of the appended value (e.g. *osm.Node)
-	Pos token.Pos
-	Src string
-}
-
-// c05AppendedTo returns the static types of the values appended to slice variable v in fi. Idioms:
-//
-//	v = append(v, x)                          x of concrete (pointer) type
-//	for _, x := range <src> { [if _, ok := x.(*T); ok { continue }]... v = append(v, x) }
-//	                                          x of interface type, <src> a call to / variable filled from a
-//	                                          function of the package whose own appends are known
-func c05AppendedTo(r *core.R, fi *FuncInfo, v types.Object, depth int) ([]c05Flat, string) {
-	info := fi.Pkg.TypesInfo
-	par := parentsOf(r.P, fi)
-	var out []c05Flat
-	why := ""
-	// initialiser: v := f(...)
-	ast.Inspect(fi.Decl.Body, func(n ast.Node) bool {
-		as, ok := n.(*ast.AssignStmt)
-		if !ok {
-			return true
-		}
-		for i, l := range as.Lhs {
-			if i >= len(as.Rhs) || objOf(info, l) != v {
-				continue
-			}
-			call, ok := ast.Unparen(as.Rhs[i]).(*ast.CallExpr)
-			if !ok {
-				if _, isSlice := ast.Unparen(as.Rhs[i]).(*ast.SliceExpr); isSlice {
-					why = "the element list is re-sliced (`" + src(r.P.Fset, as) + "`): which elements remain is not decidable statically"
-				}
-				continue
-			}
-			switch builtinName(info, call) {
-			case "make":
-				continue
-			case "append":
-				if len(call.Args) < 2 || objOf(info, call.Args[0]) != v {
-					why = "append onto another slice: `" + src(r.P.Fset, as) + "`"
-					continue
-				}
-				if call.Ellipsis.IsValid() {
-					fl, w := c05TypesOfExpr(r, fi, call.Args[1], depth)
-					out, why = append(out, fl...), c05First(why, w)
-					continue
-				}
-				for _, a := range call.Args[1:] {
-					at := info.TypeOf(a)
-					if _, isIface := at.Underlying().(*types.Interface); !isIface {
-						out = append(out, c05Flat{T: at, Pos: a.Pos(), Src: src(r.P.Fset, a)})
-						continue
-					}
-					// interface-typed loop variable of a range over a known source, minus excluded types
-					rs, _ := enclosing(par, as, func(n ast.Node) bool { _, ok := n.(*ast.RangeStmt); return ok }).(*ast.RangeStmt)
-					if rs == nil || rs.Value == nil || objOf(info, rs.Value) != objOf(info, a) || objOf(info, a) == nil {
-						why = "a value of interface type " + c03Short(at) + " is appended outside the enumerated range-filter idiom: `" + src(r.P.Fset, as) + "`"
-						continue
-					}
-					fl, w := c05TypesOfExpr(r, fi, rs.X, depth)
-					why = c05First(why, w)
-					excl := c05ExcludedTypes(info, rs, objOf(info, a), as)
-					for _, f := range fl {
-						skip := false
-						for _, x := range excl {
-							if types.Identical(x, f.T) {
-								skip = true
-							}
-						}
-						if !skip {
-							out = append(out, f)
-						}
-					}
-				}
-			default:
-				fl, w := c05TypesOfExpr(r, fi, call, depth)
-				out, why = append(out, fl...), c05First(why, w)
-			}
-		}
-		return true
-	})
-	return out, why
-}
-
-func c05First(a, b string) string {
-	if a != "" {
-		return a
-	}
-	return b
-}
-
-// c05ExcludedTypes: statements of the range body before the append of the form
-// `if _, ok := x.(*T); ok { continue }` exclude *T.
-func c05ExcludedTypes(info *types.Info, rs *ast.RangeStmt, x types.Object, before ast.Stmt) []types.Type {
-	var out []types.Type
-	for _, st := range rs.Body.List {
-		if st.Pos() >= before.Pos() {
-			break
-		}
-		ifs, ok := st.(*ast.IfStmt)
-		if !ok || ifs.Init == nil || ifs.Else != nil || len(ifs.Body.List) != 1 {
-			continue
-		}
-		bs, ok := ifs.Body.List[0].(*ast.BranchStmt)
-		if !ok || bs.Tok != token.CONTINUE {
-			continue
-		}
-		as, ok := ifs.Init.(*ast.AssignStmt)
-		if !ok || len(as.Lhs) != 2 || len(as.Rhs) != 1 {
-			continue
-		}
-		ta, ok := ast.Unparen(as.Rhs[0]).(*ast.TypeAssertExpr)
-		if !ok || ta.Type == nil || objOf(info, ta.X) != x || objOf(info, ifs.Cond) != objOf(info, as.Lhs[1]) || objOf(info, ifs.Cond) == nil {
-			continue
-		}
-		out = append(out, info.TypeOf(ta.Type))
-	}
-	return out
-}
-
-// c05TypesOfExpr returns the element types of a slice-valued expression: a call to a function of the package
-// (the types appended to the variable it returns) or a local variable.
-func c05TypesOfExpr(r *core.R, fi *FuncInfo, e ast.Expr, depth int) ([]c05Flat, string) {
-	info := fi.Pkg.TypesInfo
-	e = ast.Unparen(e)
-	if depth > 3 {
-		return nil, "flattening nested too deeply"
-	}
-	switch x := e.(type) {
-	case *ast.CallExpr:
-		fn := callee(info, x)
-		ci := c03FuncInfoOf(r.P, fn)
-		if ci == nil || ci.Decl.Body == nil {
-			return nil, "the element list comes from `" + src(r.P.Fset, e) + "`, which is not a function of the repository"
-		}
-		var out []c05Flat
-		why := ""
-		nres := 0
-		for _, rs := range c05Returns(ci.Decl.Body) {
-			if len(rs.Results) == 0 {
-				continue
-			}
-			res := ast.Unparen(rs.Results[0])
-			if id, ok := res.(*ast.Ident); ok && id.Name == "nil" {
-				continue
-			}
-			o := objOf(ci.Pkg.TypesInfo, res)
-			if o == nil {
-				why = ci.Name() + " returns `" + src(r.P.Fset, res) + "`, not a variable"
-				continue
-			}
-			nres++
-			fl, w := c05AppendedTo(r, ci, o, depth+1)
-			out, why = append(out, fl...), c05First(why, w)
-		}
-		if nres == 0 && why == "" {
-			why = ci.Name() + " has no return of a slice variable"
-		}
-		return out, why
-	case *ast.Ident:
-		if o := objOf(info, x); o != nil {
-			return c05AppendedTo(r, fi, o, depth+1)
-		}
-	case *ast.SelectorExpr:
-		// a field of the receiver: its element type
-		if f := fieldOf(info, x); f != nil {
-			if sl, ok := f.Type().Underlying().(*types.Slice); ok {
-				return []c05Flat{{T: sl.Elem(), Pos: x.Pos(), Src: src(r.P.Fset, x)}}, ""
-			}
-		}
-	}
-	return nil, "element list expression `" + src(r.P.Fset, e) + "` is outside the enumerated idioms (call of a package function, local variable, receiver field)"
-}
-
-// c05Flattening resolves the types OSM.MarshalJSON can write into the elements array.
-type c05Flattening struct {
-	ma      *FuncInfo
-	shim    *c05Shim
-	elemKey *c03JSONField
-	expr    ast.Expr
-	types   []c05Flat // deduplicated
-	unknown string
-}
-
-func c05FindFlattening(r *core.R) *c05Flattening {
-	pk := c03OsmPkg(r.P)
-	ma := findFunc(pk, "OSM.MarshalJSON")
-	if ma == nil {
-		r.Anchor("osm.OSM.MarshalJSON")
-		return nil
-	}
-	sh := c05MarshalShim(r, ma, c05Helpers(r.P))
-	if sh == nil {
-		r.Anchor("the struct OSM.MarshalJSON hands to the JSON codec")
-		return nil
-	}
-	fl := &c05Flattening{ma: ma, shim: sh}
-	fl.elemKey = c03JSONKey(sh.Type, "elements")
-	if fl.elemKey == nil {
-		r.Anchor("field with JSON key `elements` in the struct OSM.MarshalJSON marshals")
-		return nil
-	}
-	fl.expr = sh.Values[fl.elemKey.Var]
-	if fl.expr == nil {
-		fl.unknown = "the `elements` field of the marshalled struct has no initialiser"
-		return fl
-	}
-	ts, why := c05TypesOfExpr(r, ma, fl.expr, 0)
-	fl.unknown = why
-	seen := map[string]bool{}
-	for _, t := range ts {
-		k := types.TypeString(t.T, nil)
-		if !seen[k] {
-			seen[k] = true
-			fl.types = append(fl.types, t)
-		}
-	}
-	return fl
-}
-
-// c05TypeKeyOf returns the JSON `type` field of struct T and its literal.
-func c05TypeKeyOf(p *core.Program, t types.Type) (*c03JSONField, string, token.Pos, string) {
-	jf := c03JSONKey(t, "type")
-	if jf == nil {
-		return nil, "", token.NoPos, ""
-	}
-	lit, pos, why := c05TypeLiteral(p, jf.Var.Type())
-	return jf, lit, pos, why
-}
-
-// ---- J1 --------------------------------------------------------------------------------------
-
-func c05J1(r *core.R) {
-	c03Init(r)
-	fl := c05FindFlattening(r)
-	if fl == nil {
-		return
-	}
-	if fl.unknown != "" {
-		r.Unknown("flatten@OSM.MarshalJSON", fl.shim.Pos, "cannot enumerate what `%s` puts into the elements array: %s", src(r.P.Fset, fl.expr), fl.unknown)
-	} else {
-		var names []string
-		for _, t := range fl.types {
-			names = append(names, c03Short(t.T))
-		}
-		r.OK("flatten@OSM.MarshalJSON", fl.expr.Pos(), "key `elements` is fed by `%s`, which can append %d type(s): %s", src(r.P.Fset, fl.expr), len(fl.types), strings.Join(names, ", "))
-	}
-	// every field of osm.OSM is carried into the document: by a top-level key or through the elements array
-	if osmNT, st := structType(c03OsmPkg(r.P), "OSM"); osmNT != nil && fl.unknown == "" {
-		minfo := fl.ma.Pkg.TypesInfo
-		mrecv := c03Receiver(fl.ma)
-		for i := 0; i < st.NumFields(); i++ {
-			f := st.Field(i)
-			if !f.Exported() {
-				continue
-			}
-			c := "carried@OSM." + f.Name()
-			key := ""
-			for _, jf := range c03JSONFields(fl.shim.Type) {
-				if v := fl.shim.Values[jf.Var]; v != nil && jf != fl.elemKey && fieldOf(minfo, v) == f && rootObj(minfo, v) == mrecv {
-					key = jf.Key
-				}
-			}
-			via := ""
-			for _, t := range fl.types {
-				if types.Identical(c03Deref(t.T), c03ElemType(f.Type())) {
-					via = t.Src
-				}
-			}
-			switch {
-			case key != "":
-				r.OK(c, f.Pos(), "written under top-level key %q", key)
-			case via != "":
-				r.OK(c, f.Pos(), "written into the elements array (`%s`)", via)
-			default:
-				r.Bad(c, f.Pos(), "OSM.%s (%s) is written neither under a top-level key nor into the elements array by OSM.MarshalJSON: it is silently lost over a JSON round trip", f.Name(), c03Short(f.Type()))
-			}
-		}
-	}
-	for _, t := range fl.types {
-		T := c03Deref(t.T)
-		c := "type@" + c03TypeName(T)
-		if _, isStruct := T.Underlying().(*types.Struct); !isStruct {
-			r.Unknown(c, t.Pos, "`%s` appends a %s, not a (pointer to a) struct", t.Src, c03Short(t.T))
-			continue
-		}
-		jf, lit, pos, why := c05TypeKeyOf(r.P, T)
-		switch {
-		case jf == nil:
-			r.Bad(c, t.Pos, "`%s` puts a %s into the elements array but %s has no field with JSON key `type`: the element is written without its type (osmjson requires one per element) and OSM.UnmarshalJSON rejects the document (\"could not find type\")", t.Src, c03Short(t.T), c03Short(T))
-		case why != "":
-			r.Bad(c, c05PosOr(pos, jf.Var.Pos()), "the `type` key of %s is carried by field %s, but %s", c03Short(T), jf.Var.Name(), why)
-		case c03Implements(r.P, jf.Var.Type(), "encoding/json", "Marshaler") == "pointer":
-			r.Bad(c, jf.Var.Pos(), "MarshalJSON of %s has a pointer receiver: it is not used for the non-addressable field value, the key is written as the raw struct", c03Short(jf.Var.Type()))
-		default:
-			r.OK(c, pos, "%s.%s carries JSON key `type`; %s.MarshalJSON returns the literal %q", c03Short(T), jf.Var.Name(), c03Short(jf.Var.Type()), lit)
-		}
-	}
-}
-
-func c05PosOr(a, b token.Pos) token.Pos {
-	if a.IsValid() {
-		return a
-	}
-	return b
-}
-
-// ---- J2 --------------------------------------------------------------------------------------
-
-// c05Reader is the dispatch switch of OSM.UnmarshalJSON.
-type c05Reader struct {
-	un     *FuncInfo
-	sw     *c03Switch
-	tagSrc *FuncInfo // function whose result the switch tag holds
-}
-
-func c05FindReader(r *core.R) *c05Reader {
-	pk := c03OsmPkg(r.P)
-	un := findFunc(pk, "(*OSM).UnmarshalJSON")
-	if un == nil {
-		r.Anchor("osm.(*OSM).UnmarshalJSON")
-		return nil
-	}
-	info := pk.TypesInfo
-	rd := &c05Reader{un: un}
-	for _, sw := range c03StringSwitches(info, un.Decl.Body) {
-		o := objOf(info, sw.Stmt.Tag)
-		if o == nil {
-			continue
-		}
-		// t, err := f(...)
-		ast.Inspect(un.Decl.Body, func(n ast.Node) bool {
-			as, ok := n.(*ast.AssignStmt)
-			if !ok || len(as.Rhs) != 1 || len(as.Lhs) == 0 || objOf(info, as.Lhs[0]) != o {
-				return true
-			}
-			if call, ok := ast.Unparen(as.Rhs[0]).(*ast.CallExpr); ok {
-				if ci := c03FuncInfoOf(r.P, callee(info, call)); ci != nil {
-					rd.tagSrc = ci
-				}
-			}
-			return true
-		})
-		rd.sw = sw
-	}
-	if rd.sw == nil {
-		r.Anchor("switch on the element type in osm.(*OSM).UnmarshalJSON")
-		return nil
-	}
-	return rd
-}
-
-// c05CaseInfo describes one case of the reader: the type allocated, decoded and stored.
-type c05CaseInfo struct {
-	T       types.Type // allocated struct type
-	Field   *types.Var // receiver field the value is stored into
-	Append  bool
-	Why     string
-	Pos     token.Pos
-	Decoded bool
-}
-
-func c05AnalyseCase(r *core.R, rd *c05Reader, cs c03Case, helpers map[*types.Func]string) c05CaseInfo {
-	info := rd.un.Pkg.TypesInfo
-	recv := c03Receiver(rd.un)
-	ci := c05CaseInfo{Pos: cs.Clause.Pos()}
-	var v types.Object
-	for _, cc := range c05CodecCalls(r.P, info, cs.Clause, helpers) {
-		if cc.dir != "unmarshal" {
-			continue
-		}
-		v = rootObj(info, cc.operand)
-		ci.Decoded = true
-		ci.Pos = cc.call.Pos()
-	}
-	if v == nil {
-		ci.Why = "the case never unmarshals the element"
-		return ci
-	}
-	ci.T = c03NewOf(info, cs.Clause, v)
-	if ci.T == nil {
-		ci.Why = fmt.Sprintf("%s is not allocated as &T{} in the case body", v.Name())
-		return ci
-	}
-	ast.Inspect(cs.Clause, func(n ast.Node) bool {
-		as, ok := n.(*ast.AssignStmt)
-		if !ok || len(as.Lhs) != 1 || len(as.Rhs) != 1 || as.Pos() < ci.Pos {
-			return true
-		}
-		f := fieldOf(info, as.Lhs[0])
-		if f == nil || rootObj(info, as.Lhs[0]) != recv {
-			return true
-		}
-		rhs := ast.Unparen(as.Rhs[0])
-		if call, ok := rhs.(*ast.CallExpr); ok && builtinName(info, call) == "append" && len(call.Args) == 2 && sameExpr(info, call.Args[0], as.Lhs[0]) && objOf(info, call.Args[1]) == v {
-			ci.Field, ci.Append = f, true
-		} else if objOf(info, rhs) == v {
-			ci.Field = f
-		}
-		return true
-	})
-	if ci.Field == nil {
-		ci.Why = fmt.Sprintf("the decoded %s is never stored into the receiver (expected `o.F = append(o.F, %s)`)", v.Name(), v.Name())
-		return ci
-	}
-	holds := ci.Field.Type()
-	if ci.Append {
-		holds = ci.Field.Type().Underlying().(*types.Slice).Elem()
-	}
-	if !types.Identical(c03Deref(holds), c03Deref(ci.T)) {
-		ci.Why = fmt.Sprintf("a %s is stored into OSM.%s, which holds %s", c03Short(ci.T), ci.Field.Name(), c03Short(holds))
-	}
-	return ci
-}
-
-func c05J2(r *core.R) {
-	c03Init(r)
-	helpers := c05Helpers(r.P)
-	rd := c05FindReader(r)
-	fl := c05FindFlattening(r)
-	if rd == nil || fl == nil {
-		return
-	}
-	info := rd.un.Pkg.TypesInfo
-	// the switch tag is the `type` key of the element
-	switch {
-	case rd.tagSrc == nil:
-		r.Unknown("typekey@(*OSM).UnmarshalJSON", rd.sw.Stmt.Pos(), "the switch tag `%s` is not the result of a function of the package", src(r.P.Fset, rd.sw.Stmt.Tag))
-	default:
-		ok := false
-		var key string
-		for _, cc := range c05CodecCalls(r.P, rd.tagSrc.Pkg.TypesInfo, rd.tagSrc.Decl.Body, helpers) {
-			if cc.dir != "unmarshal" {
-				continue
-			}
-			t := rd.tagSrc.Pkg.TypesInfo.TypeOf(cc.operand)
-			for _, jf := range c03JSONFields(t) {
-				// the field must be what the function returns
-				for _, rs := range c05Returns(rd.tagSrc.Decl.Body) {
-					if len(rs.Results) > 0 && fieldOf(rd.tagSrc.Pkg.TypesInfo, rs.Results[0]) == jf.Var {
-						key = jf.Key
-						ok = jf.Key == "type"
-					}
-				}
-			}
-		}
-		if ok {
-			r.OK("typekey@"+rd.tagSrc.Name(), rd.tagSrc.Decl.Pos(), "the dispatch value is the element's JSON key `type`, read by %s", rd.tagSrc.Name())
-		} else {
-			r.Bad("typekey@"+rd.tagSrc.Name(), rd.tagSrc.Decl.Pos(), "%s returns the element's JSON key %q, not `type`: the reader dispatches on something the writer does not write", rd.tagSrc.Name(), key)
-		}
-	}
-	// cases
-	cases := map[string]c05CaseInfo{}
-	for _, cs := range rd.sw.Cases {
-		cases[cs.Label] = c05AnalyseCase(r, rd, cs, helpers)
-	}
-	handled := map[string]bool{}
-	for _, t := range fl.types {
-		T := c03Deref(t.T)
-		jf, lit, _, why := c05TypeKeyOf(r.P, T)
-		if jf == nil || why != "" {
-			c := "case@" + c03TypeName(T)
-			// is there any case that stores a T?
-			var by string
-			for l, ci := range cases {
-				if ci.T != nil && types.Identical(c03Deref(ci.T), T) {
-					by = l
-				}
-			}
-			if by == "" {
-				r.Bad(c, rd.sw.Stmt.Pos(), "OSM.MarshalJSON writes %s values into the elements array (`%s`) but OSM.UnmarshalJSON has no case that reads one back (and the element carries no usable `type`): a marshalled OSM holding one cannot be unmarshalled", c03Short(t.T), t.Src)
-			} else {
-				r.Bad(c, rd.sw.Stmt.Pos(), "case %q stores a %s but the writer gives %s elements no literal `type`", by, c03Short(t.T), c03Short(T))
-			}
-			continue
-		}
-		c := fmt.Sprintf("case %q@(*OSM).UnmarshalJSON", lit)
-		handled[lit] = true
-		ci, ok := cases[lit]
-		switch {
-		case !ok:
-			r.Bad(c, rd.sw.Stmt.Pos(), "the writer emits elements with \"type\":%q (%s) but OSM.UnmarshalJSON has no case %q: such a document is rejected by the default branch", lit, c03Short(t.T), lit)
-		case ci.Why != "":
-			r.Bad(c, ci.Pos, "case %q: %s", lit, ci.Why)
-		case !types.Identical(c03Deref(ci.T), T):
-			r.Bad(c, ci.Pos, "elements with \"type\":%q are written from %s but case %q decodes them into %s", lit, c03Short(T), lit, c03Short(ci.T))
-		default:
-			how := "assigns it to"
-			if ci.Append {
-				how = "appends it to"
-			}
-			r.OK(c, ci.Pos, "unmarshals into a new %s and %s OSM.%s", c03Short(ci.T), how, ci.Field.Name())
-		}
-	}
-	for _, cs := range rd.sw.Cases {
-		if handled[cs.Label] {
-			continue
-		}
-		ci := cases[cs.Label]
-		c := fmt.Sprintf("case %q@(*OSM).UnmarshalJSON", cs.Label)
-		if ci.Why != "" {
-			r.Bad(c, ci.Pos, "case %q: %s", cs.Label, ci.Why)
-			continue
-		}
-		_, lit, _, _ := c05TypeKeyOf(r.P, ci.T)
-		if lit != cs.Label {
-			r.Bad(c, ci.Pos, "case %q decodes into %s, whose own `type` literal is %q", cs.Label, c03Short(ci.T), lit)
-		} else {
-			r.OK(c, ci.Pos, "reads a type the flattening never writes (accepted: reading more than is written)")
-		}
-	}
-	// default
-	switch {
-	case rd.sw.Default == nil:
-		r.Bad("default@(*OSM).UnmarshalJSON", rd.sw.Stmt.Pos(), "no default branch: an element of unknown type is silently dropped")
-	default:
-		okErr := false
-		if n := len(rd.sw.Default.Body); n > 0 {
-			if rs, ok := rd.sw.Default.Body[n-1].(*ast.ReturnStmt); ok && len(rs.Results) == 1 {
-				res := ast.Unparen(rs.Results[0])
-				id, isIdent := res.(*ast.Ident)
-				if !(isIdent && id.Name == "nil") && info.TypeOf(res) != nil && types.AssignableTo(info.TypeOf(res), types.Universe.Lookup("error").Type()) {
-					okErr = true
-				}
-			}
-		}
-		if okErr {
-			r.OK("default@(*OSM).UnmarshalJSON", rd.sw.Default.Pos(), "an element of unknown type returns an error")
-		} else {
-			r.Bad("default@(*OSM).UnmarshalJSON", rd.sw.Default.Pos(), "the default branch does not return an error: an element whose type has no case is silently dropped, so a written element can vanish over a round trip")
-		}
-	}
-	// top-level keys
-	c05TopLevel(r, fl, rd, helpers)
-}
-
-// c05TopLevel: every key the writer's shim carries (other than elements) is read back into the OSM field it was
-// written from.
-func c05TopLevel(r *core.R, fl *c05Flattening, rd *c05Reader, helpers map[*types.Func]string) {
-	info := rd.un.Pkg.TypesInfo
-	mrecv, urecv := c03Receiver(fl.ma), c03Receiver(rd.un)
-	// reader shim: struct variable whose address is unmarshalled into, outside the switch
-	var rshim types.Object
-	for _, cc := range c05CodecCalls(r.P, info, rd.un.Decl.Body, helpers) {
-		if cc.dir == "unmarshal" && cc.call.Pos() < rd.sw.Stmt.Pos() {
-			if o := objOf(info, cc.operand); o != nil {
-				if _, ok := o.Type().Underlying().(*types.Struct); ok {
-					rshim = o
-				}
-			}
-		}
-	}
-	if rshim == nil {
-		r.Anchor("the struct OSM.UnmarshalJSON decodes the document into")
-		return
-	}
-	for _, jf := range c03JSONFields(fl.shim.Type) {
-		if jf == fl.elemKey || jf.Key == fl.elemKey.Key {
-			continue
-		}
-		c := "top " + jf.Key + "@OSM"
-		val := fl.shim.Values[jf.Var]
-		var from *types.Var
-		if val != nil {
-			ast.Inspect(val, func(n ast.Node) bool {
-				if e, ok := n.(ast.Expr); ok {
-					if f := fieldOf(fl.ma.Pkg.TypesInfo, e); f != nil && rootObj(fl.ma.Pkg.TypesInfo, e) == mrecv {
-						from = f
-					}
-				}
-				return true
-			})
-		}
-		if from == nil {
-			r.Unknown(c, fl.shim.Pos, "key %q is not written from a field of the receiver (`%s`)", jf.Key, src(r.P.Fset, val))
-			continue
-		}
-		rf := c03JSONKey(rshim.Type(), jf.Key)
-		if rf == nil {
-			r.Bad(c, rshim.Pos(), "OSM.MarshalJSON writes OSM.%s under key %q but the struct OSM.UnmarshalJSON decodes into has no such key: the value is lost on unmarshalling", from.Name(), jf.Key)
-			continue
-		}
-		// o.F = <expr mentioning s.G>, or mentioning a local derived from s.G: `v := s.G`,
-		// `if v := s.G; ...`, `switch v := s.G.(type)` (the per-clause v)
-		derived := map[types.Object]bool{}
-		mentionsShim := func(n ast.Node) bool {
-			found := false
-			ast.Inspect(n, func(m ast.Node) bool {
-				if e, ok := m.(ast.Expr); ok && fieldOf(info, e) == rf.Var && rootObj(info, e) == rshim {
-					found = true
-				}
-				return !found
-			})
-			return found
-		}
-		ast.Inspect(rd.un.Decl.Body, func(n ast.Node) bool {
-			switch x := n.(type) {
-			case *ast.AssignStmt:
-				for i, l := range x.Lhs {
-					if id, ok := ast.Unparen(l).(*ast.Ident); ok && i < len(x.Rhs) && len(x.Lhs) == len(x.Rhs) && mentionsShim(x.Rhs[i]) {
-						if o := objOf(info, id); o != nil && fieldOf(info, l) == nil {
-							derived[o] = true
-						}
-					}
-				}
-			case *ast.TypeSwitchStmt:
-				if mentionsShim(x.Assign) {
-					for _, st := range x.Body.List {
-						if o := info.Implicits[st]; o != nil {
-							derived[o] = true
-						}
-					}
-				}
-			}
-			return true
-		})
-		okAssign := false
-		var wrong string
-		var apos token.Pos
-		ast.Inspect(rd.un.Decl.Body, func(n ast.Node) bool {
-			as, ok := n.(*ast.AssignStmt)
-			if !ok {
-				return true
-			}
-			for i, l := range as.Lhs {
-				if i >= len(as.Rhs) || fieldOf(info, l) == nil || rootObj(info, l) != urecv {
-					continue
-				}
-				uses := mentionsShim(as.Rhs[i])
-				ast.Inspect(as.Rhs[i], func(m ast.Node) bool {
-					if id, ok := m.(*ast.Ident); ok && derived[info.Uses[id]] {
-						uses = true
-					}
-					return true
-				})
-				if !uses {
-					continue
-				}
-				if fieldOf(info, l).Name() == from.Name() {
-					okAssign, apos = true, as.Pos()
-				} else {
-					wrong = fieldOf(info, l).Name()
-				}
-			}
-			return true
-		})
-		switch {
-		case okAssign:
-			r.OK(c, apos, "written from OSM.%s, read back into OSM.%s", from.Name(), from.Name())
-		case wrong != "":
-			r.Bad(c, rshim.Pos(), "key %q is written from OSM.%s but read back into OSM.%s", jf.Key, from.Name(), wrong)
-		default:
-			r.Bad(c, rshim.Pos(), "key %q is written from OSM.%s and decoded, but never stored into OSM.%s: the value is lost on unmarshalling", jf.Key, from.Name(), from.Name())
-		}
-	}
-}
-
-// ---- J3 --------------------------------------------------------------------------------------
-
-// c05TypeConstOf derives the osm.Type constant T's object id decodes to: the mask constants that label the
-// cases of ObjectID.Type() and are referenced by the functions (*T).ObjectID reaches; exactly one is required.
-func c05TypeConstOf(r *core.R, T types.Type) (string, string) {
-	pk := c03OsmPkg(r.P)
-	info := pk.TypesInfo
-	tm := findFunc(pk, "ObjectID.Type")
-	if tm == nil {
-		return "", "osm.ObjectID.Type not found"
-	}
-	labels := map[types.Object]string{} // mask constant -> Type constant value
-	ast.Inspect(tm.Decl.Body, func(n ast.Node) bool {
-		cc, ok := n.(*ast.CaseClause)
-		if !ok || len(cc.List) != 1 || len(cc.Body) != 1 {
-			return true
-		}
-		rs, ok := cc.Body[0].(*ast.ReturnStmt)
-		if !ok || len(rs.Results) != 1 {
-			return true
-		}
-		if v, ok := constString(info, rs.Results[0]); ok {
-			if o := objOf(info, cc.List[0]); o != nil {
-				labels[o] = v
-			}
-		}
-		return true
-	})
-	if len(labels) == 0 {
-		return "", "ObjectID.Type() has no `case <mask>: return Type<X>` table"
-	}
-	om := c03FuncInfoOf(r.P, c03Method(T, "ObjectID"))
-	if om == nil {
-		return "", c03Short(T) + " has no ObjectID method in the repository"
-	}
-	hit := map[string]bool{}
-	for _, fi := range c03Callees(r.P, om, 5) {
-		ast.Inspect(fi.Decl.Body, func(n ast.Node) bool {
-			if id, ok := n.(*ast.Ident); ok {
-				if v, ok := labels[fi.Pkg.TypesInfo.Uses[id]]; ok {
-					hit[v] = true
-				}
-			}
-			return true
-		})
-	}
-	ks := c03SortedKeys(hit)
-	if len(ks) != 1 {
-		return "", fmt.Sprintf("the functions (*%s).ObjectID reaches reference %d type masks %v; exactly one expected", c03TypeName(T), len(ks), ks)
-	}
-	return ks[0], ""
-}
-
-func c05J3(r *core.R) {
-	c03Init(r)
-	fl := c05FindFlattening(r)
-	if fl == nil {
-		return
-	}
-	pk := c03OsmPkg(r.P)
-	osmNT, _ := structType(pk, "OSM")
-	for _, t := range fl.types {
-		T := c03Deref(t.T)
-		jf, lit, pos, why := c05TypeKeyOf(r.P, T)
-		if jf == nil || why != "" {
-			continue // reported by J1
-		}
-		c := "name@" + c03TypeName(T)
-		// XML name: XMLName tag, else the tag of the OSM field holding T
-		xmlName := ""
-		if ti := c03XMLTypeInfo(T); ti != nil && ti.XMLName != nil {
-			xmlName = ti.XMLName.Name
-		}
-		if xmlName == "" && osmNT != nil {
-			for _, f := range c03XMLTypeInfo(osmNT).Fields {
-				if f.Kind == c03Elem && types.Identical(c03ElemType(f.Var.Type()), T) {
-					xmlName = f.Name
-				}
-			}
-		}
-		tc, twhy := c05TypeConstOf(r, T)
-		switch {
-		case twhy != "":
-			r.Unknown(c, pos, "cannot derive the osm.Type constant of %s: %s", c03Short(T), twhy)
-		case xmlName != lit:
-			r.Bad(c, pos, "JSON \"type\":%q but the XML element of %s is <%s>: the same object is named differently in the two formats (and by osm.Type)", lit, c03Short(T), xmlName)
-		case tc != lit:
-			r.Bad(c, pos, "JSON \"type\":%q but (*%s).ObjectID().Type() is %q: ids parsed from the JSON type (Type(%q).FeatureID, members' type) do not denote this kind of object", lit, c03TypeName(T), tc, lit)
-		default:
-			r.OK(c, pos, "JSON type literal, XML element name and osm.Type constant are all %q", lit)
-		}
-	}
-}
-
-// ---- J4 --------------------------------------------------------------------------------------
-
-// c05IsConversionCallee: formatting / conversion functions that turn a nil into placeholder text or panic.
-func c05IsConversionCallee(fn *types.Func) bool {
-	if fn == nil || fn.Pkg() == nil {
-		return false
-	}
-	switch fn.Pkg().Path() {
-	case "fmt", "strconv":
-		return true
-	}
-	return false
-}
-
-// c05NilGuarded: the use is dominated by a test of the shim field (or a single-assignment alias of it) against nil
-// whose nil edge does not reach the use.
-func c05NilGuarded(info *types.Info, g *cfg.CFG, dom map[*cfg.Block]map[*cfg.Block]bool, use ast.Node, isSel func(ast.Expr) bool) (bool, string) {
-	ub, _ := blockOf(g, use.Pos())
-	if ub == nil {
-		return false, "use not located in the control-flow graph"
-	}
-	seenTest := ""
-	for _, b := range g.Blocks {
-		if !b.Live || len(b.Succs) != 2 || len(b.Nodes) == 0 {
-			continue
-		}
-		be, ok := ast.Unparen(lastExpr(b)).(*ast.BinaryExpr)
-		if !ok || (be.Op != token.NEQ && be.Op != token.EQL) {
-			continue
-		}
-		isNil := func(e ast.Expr) bool { id, ok := ast.Unparen(e).(*ast.Ident); return ok && id.Name == "nil" }
-		var other ast.Expr
-		switch {
-		case isNil(be.Y):
-			other = be.X
-		case isNil(be.X):
-			other = be.Y
-		default:
-			continue
-		}
-		if !isSel(other) {
-			continue
-		}
-		nilEdge := b.Succs[1]
-		if be.Op == token.EQL {
-			nilEdge = b.Succs[0]
-		}
-		if b == ub || !dom[ub][b] {
-			seenTest = "`" + c03Src(be) + "` does not dominate the use"
-			continue
-		}
-		if reachableFrom([]*cfg.Block{nilEdge}, func(x *cfg.Block) bool { return x == b })[ub] {
-			seenTest = "the use is reachable from the nil edge of `" + c03Src(be) + "`"
-			continue
-		}
-		return true, "`" + c03Src(be) + "`"
-	}
-	return false, seenTest
-}
-
-func c05J4(r *core.R) {
-	c03Init(r)
-	pk := c03OsmPkg(r.P)
-	info := pk.TypesInfo
-	helpers := c05Helpers(r.P)
-	nm := 0
-	for _, fi := range allFuncs(pk) {
-		if fi.Obj.Name() != "UnmarshalJSON" || fi.Obj.Type().(*types.Signature).Recv() == nil {
-			continue
-		}
-		// shims: struct-typed local variables the method unmarshals into
-		var shims []types.Object
-		ncalls := 0
-		for _, cc := range c05CodecCalls(r.P, info, fi.Decl.Body, helpers) {
-			if cc.dir != "unmarshal" {
-				continue
-			}
-			ncalls++
-			if o := objOf(info, cc.operand); o != nil {
-				if _, ok := o.Type().Underlying().(*types.Struct); ok {
-					shims = append(shims, o)
-				}
-			}
-		}
-		if ncalls == 0 {
-			continue // does not decode anything (type-name shims, raw message)
-		}
-		nm++
-		name := fi.Name()
-		var g *cfg.CFG
-		var dom map[*cfg.Block]map[*cfg.Block]bool
-		nuse := 0
-		for _, sh := range shims {
-			st := sh.Type().Underlying().(*types.Struct)
-			for i := 0; i < st.NumFields(); i++ {
-				f := st.Field(i)
-				switch f.Type().Underlying().(type) {
-				case *types.Interface, *types.Pointer:
-				default:
-					continue
-				}
-				// uses of sh.f in conversion positions
-				type use struct {
-					node ast.Node
-					sel  ast.Expr
-					what string
-				}
-				var uses []use
-				// local aliases `v := sh.f` (single assignment) denote the same value
-				aliases := map[types.Object]bool{}
-				nassign := map[types.Object]int{}
-				ast.Inspect(fi.Decl.Body, func(n ast.Node) bool {
-					if as, ok := n.(*ast.AssignStmt); ok {
-						for i, l := range as.Lhs {
-							o := objOf(info, l)
-							if o == nil {
-								continue
-							}
-							nassign[o]++
-							if i < len(as.Rhs) && len(as.Lhs) == len(as.Rhs) && fieldOf(info, as.Rhs[i]) == f && rootObj(info, as.Rhs[i]) == sh {
-								aliases[o] = true
-							}
-						}
-					}
-					return true
-				})
-				for o := range aliases {
-					if nassign[o] != 1 {
-						delete(aliases, o)
-					}
-				}
-				isSel := func(e ast.Expr) bool {
-					e = ast.Unparen(e)
-					if fieldOf(info, e) == f && rootObj(info, e) == sh {
-						return true
-					}
-					if id, ok := e.(*ast.Ident); ok && aliases[objOf(info, id)] && info.Uses[id] != nil {
-						return true
-					}
-					return false
-				}
-				findSel := func(n ast.Node) ast.Expr {
-					var res ast.Expr
-					ast.Inspect(n, func(m ast.Node) bool {
-						if e, ok := m.(ast.Expr); ok && res == nil && isSel(e) {
-							res = e
-						}
-						return res == nil
-					})
-					return res
-				}
-				ast.Inspect(fi.Decl.Body, func(n ast.Node) bool {
-					switch x := n.(type) {
-					case *ast.CallExpr:
-						if fn := callee(info, x); c05IsConversionCallee(fn) {
-							for _, a := range x.Args {
-								if s := findSel(a); s != nil {
-									uses = append(uses, use{x, s, "formatted by " + fn.Pkg().Name() + "." + fn.Name()})
-								}
-							}
-						}
-					case *ast.StarExpr:
-						if s := findSel(x.X); s != nil && s == ast.Unparen(x.X) {
-							uses = append(uses, use{x, s, "dereferenced"})
-						}
-					case *ast.TypeAssertExpr:
-						if x.Type == nil {
-							return true // type switch
-						}
-						if s := findSel(x.X); s != nil && s == ast.Unparen(x.X) {
-							// comma-ok form is safe
-							if as, ok := parentsOf(r.P, fi)[x].(*ast.AssignStmt); ok && len(as.Lhs) == 2 {
-								return true
-							}
-							uses = append(uses, use{x, s, "type-asserted without the comma-ok form"})
-						}
-					}
-					return true
-				})
-				for _, u := range uses {
-					nuse++
-					if g == nil {
-						g = newCFG(info, fi.Decl.Body)
-						dom = dominators(g)
-					}
-					c := "nil@" + name + " " + src(r.P.Fset, u.sel)
-					if ok, by := c05NilGuarded(info, g, dom, u.node, isSel); ok {
-						r.OK(c, u.node.Pos(), "`%s`: %s (%s) is %s only where %s holds on every path", src(r.P.Fset, u.node), src(r.P.Fset, u.sel), c03Short(f.Type()), u.what, by)
-					} else {
-						extra := ""
-						if by != "" {
-							extra = " (" + by + ")"
-						}
-						zero := "\"<nil>\""
-						if u.what != "formatted by fmt.Sprintf" && !strings.HasPrefix(u.what, "formatted by fmt") {
-							zero = "a panic or a conversion error"
-						}
-						r.Bad(c, u.node.Pos(), "`%s`: %s has type %s and stays nil when the key is absent from the document, yet it is %s without a dominating nil test%s: an absent optional key turns into %s instead of staying empty",
-							src(r.P.Fset, u.node), src(r.P.Fset, u.sel), c03Short(f.Type()), u.what, extra, zero)
-					}
-				}
-			}
-		}
-		if nuse == 0 {
-			r.OKTrivial("nil@"+name, fi.Decl.Pos(), "decodes through %d codec call(s); no interface- or pointer-typed shim field reaches a formatting/conversion call", ncalls)
-		}
-	}
-	r.Stat("decoding_UnmarshalJSON_methods", nm)
-}
-
-// ---- J5 --------------------------------------------------------------------------------------
-
-type c05KeyTable struct {
-	Types []struct {
-		Go   string `json:"go"`
-		Doc  string `json:"doc"`
-		Keys []struct {
-			Key   string `json:"key"`
-			Field string `json:"field"`
-		} `json:"keys"`
-	} `json:"types"`
-}
-
-// c05Neutral: the JSON form of a value of type t involves no Go-level convention (struct tags, method sets,
-// case folding): basic types, slices/arrays/pointers of neutral types, string-keyed maps of neutral types.
-func c05Neutral(p *core.Program, t types.Type) bool {
-	for _, m := range [][2]string{{"encoding/json", "Marshaler"}, {"encoding/json", "Unmarshaler"}, {"encoding", "TextMarshaler"}, {"encoding", "TextUnmarshaler"}} {
-		if c03Implements(p, t, m[0], m[1]) != "" {
-			return false
-		}
-	}
-	switch u := t.Underlying().(type) {
-	case *types.Basic:
-		return true
-	case *types.Slice:
-		return c05Neutral(p, u.Elem())
-	case *types.Array:
-		return c05Neutral(p, u.Elem())
-	case *types.Pointer:
-		return c05Neutral(p, u.Elem())
-	case *types.Map:
-		b, ok := u.Key().Underlying().(*types.Basic)
-		return ok && b.Info()&types.IsString != 0 && c05Neutral(p, u.Key()) && c05Neutral(p, u.Elem())
-	}
-	return false
-}
-
-func c05J5(r *core.R) {
-	c03Init(r)
-	pk := c03OsmPkg(r.P)
-	info := pk.TypesInfo
-	helpers := c05Helpers(r.P)
-
-	// the single marshal operand of a MarshalJSON method, and what it is routed through
-	marshalOperand := func(fi *FuncInfo) (ast.Expr, *c05CodecCall) {
-		ccs := c05CodecCalls(r.P, info, fi.Decl.Body, helpers)
-		var hit *c05CodecCall
-		n := 0
-		for i := range ccs {
-			if ccs[i].dir == "marshal" {
-				hit = &ccs[i]
-				n++
-			}
-		}
-		if n != 1 {
-			return nil, nil
-		}
-		return hit.operand, hit
-	}
-
-	// (a) Tags -> map[string]string
-	if fi := findFunc(pk, "Tags.MarshalJSON"); fi == nil {
-		r.Anchor("osm.Tags.MarshalJSON")
-	} else if op, _ := marshalOperand(fi); op == nil {
-		r.Unknown("shape@Tags.MarshalJSON", fi.Decl.Pos(), "expected exactly one marshal call")
-	} else {
-		t := info.TypeOf(op)
-		m, ok := t.Underlying().(*types.Map)
-		isStr := func(t types.Type) bool {
-			b, ok := t.Underlying().(*types.Basic)
-			return ok && b.Kind() == types.String
-		}
-		if ok && isStr(m.Key()) && isStr(m.Elem()) {
-			r.OK("shape@Tags.MarshalJSON", op.Pos(), "marshals `%s` of type %s: a JSON object of key/value strings", src(r.P.Fset, op), c03Short(t))
-		} else {
-			r.Bad("shape@Tags.MarshalJSON", op.Pos(), "Tags.MarshalJSON marshals `%s` of type %s; osmjson requires tags as a JSON object, i.e. a map[string]string", src(r.P.Fset, op), c03Short(t))
-		}
-	}
-
-	// (b) WayNodes -> []int64 of ID
-	if fi := findFunc(pk, "WayNodes.MarshalJSON"); fi == nil {
-		r.Anchor("osm.WayNodes.MarshalJSON")
-	} else if op, _ := marshalOperand(fi); op == nil {
-		r.Unknown("shape@WayNodes.MarshalJSON", fi.Decl.Pos(), "expected exactly one marshal call")
-	} else {
-		c := "shape@WayNodes.MarshalJSON"
-		t := info.TypeOf(op)
-		sl, ok := t.Underlying().(*types.Slice)
-		isInt := false
-		if ok {
-			if b, ok := sl.Elem().Underlying().(*types.Basic); ok && b.Info()&types.IsInteger != 0 && c05Neutral(r.P, sl.Elem()) {
-				isInt = true
-			}
-		}
-		v := objOf(info, op)
-		recv := c03Receiver(fi)
-		// every element written into v is <int>(x.ID) with x ranging over the receiver
-		nw, okw := 0, true
-		var badSrc string
-		ast.Inspect(fi.Decl.Body, func(n ast.Node) bool {
-			as, ok := n.(*ast.AssignStmt)
-			if !ok || len(as.Lhs) != 1 || len(as.Rhs) != 1 || v == nil || rootObj(info, as.Lhs[0]) != v {
-				return true
-			}
-			var vals []ast.Expr
-			if call, ok := ast.Unparen(as.Rhs[0]).(*ast.CallExpr); ok && builtinName(info, call) == "append" {
-				vals = call.Args[1:]
-			} else if _, isIdx := ast.Unparen(as.Lhs[0]).(*ast.IndexExpr); isIdx {
-				vals = []ast.Expr{as.Rhs[0]}
-			} else {
-				return true // make(...)
-			}
-			for _, val := range vals {
-				nw++
-				e := ast.Unparen(val)
-				if conv, ok := e.(*ast.CallExpr); ok && len(conv.Args) == 1 {
-					if tv, ok := info.Types[conv.Fun]; ok && tv.IsType() {
-						e = ast.Unparen(conv.Args[0])
-					}
-				}
-				f := fieldOf(info, e)
-				fromRecv := false
-				if f != nil {
-					x := rootObj(info, e)
-					par := parentsOf(r.P, fi)
-					if rs, _ := enclosing(par, as, func(n ast.Node) bool { _, ok := n.(*ast.RangeStmt); return ok }).(*ast.RangeStmt); rs != nil && objOf(info, rs.X) == recv {
-						if (rs.Value != nil && objOf(info, rs.Value) == x) || x == recv {
-							fromRecv = true
-						}
-					}
-				}
-				if f == nil || f.Name() != "ID" || !fromRecv {
-					okw = false
-					badSrc = src(r.P.Fset, val)
-				}
-			}
-			return true
-		})
-		switch {
-		case !isInt:
-			r.Bad(c, op.Pos(), "WayNodes.MarshalJSON marshals `%s` of type %s; osmjson requires way nodes as an array of node ids (plain integers)", src(r.P.Fset, op), c03Short(t))
-		case nw == 0:
-			r.Unknown(c, op.Pos(), "no element is written into `%s`", src(r.P.Fset, op))
-		case !okw:
-			r.Bad(c, op.Pos(), "the array marshalled for a way's nodes is filled from `%s`, not from the way node's ID", badSrc)
-		default:
-			r.OK(c, op.Pos(), "marshals %s filled with the ID of every way node of the receiver", c03Short(t))
-		}
-	}
-
-	// (c) Relation.Members never omitted; empty branch returns []
-	if relNT, _ := structType(pk, "Relation"); relNT == nil {
-		r.Anchor("osm.Relation")
-	} else {
-		jf := c03JSONKey(relNT, "members")
-		switch {
-		case jf == nil:
-			r.Bad("shape@Relation.Members", relNT.Obj().Pos(), "osm.Relation has no field with JSON key `members`")
-		case jf.OmitEmpty:
-			r.Bad("shape@Relation.Members", jf.Var.Pos(), "Relation.%s is tagged omitempty: a relation without members is written without a `members` key (encoding/json omits an empty slice before it ever calls Members.MarshalJSON); osmjson consumers expect the array", jf.Var.Name())
-		default:
-			r.OK("shape@Relation.Members", jf.Var.Pos(), "JSON key `members` on Relation.%s, not omitempty", jf.Var.Name())
-		}
-	}
-	c05EmptyBranch(r, "Members.MarshalJSON", "[]", func(cond ast.Expr, recv types.Object) bool {
-		be, ok := ast.Unparen(cond).(*ast.BinaryExpr)
-		if !ok || be.Op != token.EQL {
-			return false
-		}
-		a := lenCallArg(info, be.X)
-		v, isC := constInt(info, be.Y)
-		return a != nil && objOf(info, a) == recv && isC && v == 0
-	}, "a relation without members must marshal as \"members\":[] — with a nil slice encoding/json would write null")
-	// (d) zero Date -> null
-	c05EmptyBranch(r, "Date.MarshalJSON", "null", func(cond ast.Expr, recv types.Object) bool {
-		call, ok := ast.Unparen(cond).(*ast.CallExpr)
-		if !ok || !isMethod(callee(info, call), "time.Time", "IsZero") {
-			return false
-		}
-		sel, ok := ast.Unparen(call.Fun).(*ast.SelectorExpr)
-		return ok && rootObj(info, sel.X) == recv
-	}, "an unset note date must marshal as null, not as year 1")
-
-	// (e) osmjson key names
-	c05Keys(r)
-
-	// (f) codec routing
-	c05Routing(r, helpers)
-}
-
-// c05EmptyBranch: method `name` has `if <emptyTest(recv)> { return []byte(`lit`), nil }`.
-func c05EmptyBranch(r *core.R, name, lit string, isEmptyTest func(ast.Expr, types.Object) bool, why string) {
-	pk := c03OsmPkg(r.P)
-	info := pk.TypesInfo
-	fi := findFunc(pk, name)
-	c := "shape@" + name
-	if fi == nil {
-		r.Anchor("osm." + name)
-		return
-	}
-	recv := c03Receiver(fi)
-	found := false
-	var got string
-	var pos token.Pos = fi.Decl.Pos()
-	for _, st := range fi.Decl.Body.List {
-		ifs, ok := st.(*ast.IfStmt)
-		if !ok || !isEmptyTest(ifs.Cond, recv) || len(ifs.Body.List) == 0 {
-			continue
-		}
-		rs, ok := ifs.Body.List[len(ifs.Body.List)-1].(*ast.ReturnStmt)
-		if !ok || len(rs.Results) != 2 {
-			continue
-		}
-		found, pos = true, rs.Pos()
-		if v, ok := c05ByteLit(info, rs.Results[0]); ok {
-			got = v
-		} else {
-			got = "<" + src(r.P.Fset, rs.Results[0]) + ">"
-		}
-	}
-	switch {
-	case !found:
-		r.Bad(c, pos, "%s has no early return on the empty value: %s", name, why)
-	case got != lit:
-		r.Bad(c, pos, "the empty branch of %s returns %s instead of the literal %s: %s", name, got, lit, why)
-	default:
-		r.OK(c, pos, "the empty branch returns the literal `%s`", lit)
-	}
-}
-
-func c05Keys(r *core.R) {
-	b, err := c03ReadTable("osmjson.json")
-	var tbl c05KeyTable
-	if err == nil {
-		err = json.Unmarshal(b, &tbl)
-	}
-	if err != nil || len(tbl.Types) == 0 {
-		r.Anchor(fmt.Sprintf("tables/osmjson.json: %v", err))
-		return
-	}
-	pk := c03OsmPkg(r.P)
-	var fl *c05Flattening
-	for _, tt := range tbl.Types {
-		nt, _ := structType(pk, tt.Go)
-		if nt == nil {
-			r.Anchor("type osm." + tt.Go + " (named in tables/osmjson.json)")
-			continue
-		}
-		var target types.Type = nt
-		if tt.Go == "OSM" {
-			// the document object is the shim OSM.MarshalJSON marshals
-			if fl == nil {
-				fl = c05FindFlattening(r)
-			}
-			if fl == nil {
-				continue
-			}
-			target = fl.shim.Type
-		}
-		for _, k := range tt.Keys {
-			c := "key@" + tt.Go + " " + k.Key
-			jf := c03JSONKey(target, k.Key)
-			if jf == nil {
-				r.Bad(c, nt.Obj().Pos(), "osmjson key %q of %s (%s) is not written: no field carries that JSON key", k.Key, tt.Go, tt.Doc)
-				continue
-			}
-			if tt.Go == "OSM" {
-				if k.Field == "*" {
-					r.OK(c, jf.Var.Pos(), "document key %q carries the flattened element list", k.Key)
-					continue
-				}
-				val := fl.shim.Values[jf.Var]
-				from := ""
-				if val != nil {
-					if f := fieldOf(fl.ma.Pkg.TypesInfo, val); f != nil {
-						from = f.Name()
-					}
-				}
-				if from == k.Field {
-					r.OK(c, jf.Var.Pos(), "document key %q is written from OSM.%s", k.Key, from)
-				} else {
-					r.Bad(c, jf.Var.Pos(), "document key %q is written from `%s`, osmjson puts OSM.%s there", k.Key, src(r.P.Fset, val), k.Field)
-				}
-				continue
-			}
-			if jf.Var.Name() != k.Field {
-				r.Bad(c, jf.Var.Pos(), "osmjson key %q of %s is carried by %s.%s; its documented meaning belongs to %s.%s", k.Key, tt.Go, tt.Go, jf.Var.Name(), tt.Go, k.Field)
-				continue
-			}
-			r.OK(c, jf.Var.Pos(), "key %q <- %s.%s", k.Key, tt.Go, k.Field)
-		}
-	}
-}
-
-// c05TypeLabel renders a type for a construct key; anonymous structs are abbreviated to their JSON keys.
-func c05TypeLabel(t types.Type) string {
-	inner := c03Deref(t)
-	if _, named := inner.(*types.Named); !named {
-		if _, ok := inner.Underlying().(*types.Struct); ok {
-			var keys []string
-			for _, f := range c03JSONFields(inner) {
-				keys = append(keys, f.Key)
-			}
-			return "struct{" + strings.Join(keys, ",") + "}"
-		}
-	}
-	return c03Short(t)
-}
-
-// c05Routing: inside the codec (MarshalJSON/UnmarshalJSON methods of package osm and the package functions they
-// call) every (un)marshal operation goes through a helper; the helpers fall back to encoding/json exactly when
-// no codec is installed.
-func c05Routing(r *core.R, helpers map[*types.Func]string) {
-	pk := c03OsmPkg(r.P)
-	info := pk.TypesInfo
-	if len(helpers) < 2 {
-		r.Anchor("codec helpers consulting osm.CustomJSONMarshaler / osm.CustomJSONUnmarshaler")
-	}
-	// helpers
-	for fn, dir := range helpers {
-		fi := c03FuncInfoOf(r.P, fn)
-		c := "helper@" + fn.Name()
-		varName := map[string]string{"marshal": "CustomJSONMarshaler", "unmarshal": "CustomJSONUnmarshaler"}[dir]
-		cv := pk.Types.Scope().Lookup(varName)
-		g := newCFG(info, fi.Decl.Body)
-		// find the test `cv == nil` / `cv != nil`
-		var test *cfg.Block
-		var nilEdge, setEdge *cfg.Block
-		for _, b := range g.Blocks {
-			if !b.Live || len(b.Succs) != 2 {
-				continue
-			}
-			be, ok := ast.Unparen(lastExpr(b)).(*ast.BinaryExpr)
-			if !ok || (be.Op != token.EQL && be.Op != token.NEQ) {
-				continue
-			}
-			x, y := be.X, be.Y
-			if id, ok := ast.Unparen(x).(*ast.Ident); ok && id.Name == "nil" {
-				x, y = y, x
-			}
-			if id, ok := ast.Unparen(y).(*ast.Ident); !ok || id.Name != "nil" || objOf(info, x) != cv {
-				continue
-			}
-			test = b
-			if be.Op == token.EQL {
-				nilEdge, setEdge = b.Succs[0], b.Succs[1]
-			} else {
-				nilEdge, setEdge = b.Succs[1], b.Succs[0]
-			}
-		}
-		if test == nil {
-			r.Unknown(c, fi.Decl.Pos(), "%s has no `%s == nil` test", fn.Name(), varName)
-			continue
-		}
-		nilReg := reachableFrom([]*cfg.Block{nilEdge}, func(b *cfg.Block) bool { return b == test })
-		setReg := reachableFrom([]*cfg.Block{setEdge}, func(b *cfg.Block) bool { return b == test })
-		var stdPos, cusPos token.Pos
-		bad := ""
-		sig := fn.Type().(*types.Signature)
-		for _, cc := range c05CodecCalls(r.P, info, fi.Decl.Body, map[*types.Func]string{}) {
-			blk, _ := blockOf(g, cc.call.Pos())
-			// all parameters handed on, in order
-			okArgs := len(cc.call.Args) == sig.Params().Len()
-			for i := 0; okArgs && i < sig.Params().Len(); i++ {
-				if objOf(info, cc.call.Args[i]) != sig.Params().At(i) {
-					okArgs = false
-				}
-			}
-			switch {
-			case cc.dir != dir:
-				bad = fmt.Sprintf("`%s` is a %s operation inside the %s helper", src(r.P.Fset, cc.call), cc.dir, dir)
-			case !okArgs:
-				bad = fmt.Sprintf("`%s` does not hand on the helper's parameters unchanged", src(r.P.Fset, cc.call))
-			case cc.via == "std":
-				stdPos = cc.call.Pos()
-				if !nilReg[blk] || setReg[blk] {
-					bad = fmt.Sprintf("`%s` (encoding/json) is not confined to the branch where %s is nil: an installed codec is ignored", src(r.P.Fset, cc.call), varName)
-				}
-			case cc.via == "custom":
-				cusPos = cc.call.Pos()
-				if !setReg[blk] || nilReg[blk] {
-					bad = fmt.Sprintf("`%s` is reachable while %s is nil: with the default configuration every JSON operation of the package panics with a nil dereference", src(r.P.Fset, cc.call), varName)
-				}
-			}
-		}
-		switch {
-		case bad != "":
-			r.Bad(c, fi.Decl.Pos(), "%s", bad)
-		case !stdPos.IsValid() || !cusPos.IsValid():
-			r.Bad(c, fi.Decl.Pos(), "%s must call encoding/json when %s is nil and the installed codec otherwise; one of the two calls is missing", fn.Name(), varName)
-		default:
-			r.OK(c, fi.Decl.Pos(), "%s == nil -> encoding/json, otherwise %s; parameters handed on unchanged", varName, varName)
-		}
-	}
-	// codec scope: MarshalJSON/UnmarshalJSON methods + package functions they call (helpers excluded)
-	seen := map[*types.Func]bool{}
-	var scope []*FuncInfo
-	for _, fi := range allFuncs(pk) {
-		if (fi.Obj.Name() == "MarshalJSON" || fi.Obj.Name() == "UnmarshalJSON") && fi.Obj.Type().(*types.Signature).Recv() != nil {
-			for _, ci := range c03Callees(r.P, fi, 3) {
-				if !seen[ci.Obj] && helpers[ci.Obj] == "" {
-					seen[ci.Obj] = true
-					scope = append(scope, ci)
-				}
-			}
-		}
-	}
-	r.Stat("json_codec_functions", len(scope))
-	for _, fi := range scope {
-		// restrict callees to codec-related ones: methods named Marshal/UnmarshalJSON, or functions containing a codec call
-		ccs := c05CodecCalls(r.P, info, fi.Decl.Body, helpers)
-		for _, cc := range ccs {
-			ot := info.TypeOf(cc.operand)
-			c := fmt.Sprintf("codec@%s %s(%s)", strings.NewReplacer("(*", "", ")", "").Replace(fi.Name()), cc.dir, c05TypeLabel(ot))
-			switch cc.via {
-			case "helper":
-				r.OK(c, cc.call.Pos(), "`%s` goes through the codec helper %s", src(r.P.Fset, cc.call), cc.fn.Name())
-			case "custom":
-				r.Bad(c, cc.call.Pos(), "`%s` calls the installed codec variable directly: it is nil unless a codec was installed, so the default configuration panics here (the helper tests for nil)", src(r.P.Fset, cc.call))
-			default:
-				if c05Neutral(r.P, ot) {
-					r.OKTrivial(c, cc.call.Pos(), "`%s` bypasses the helpers, accepted: the operand type %s has a codec-independent JSON form (no struct tags, no methods), so the result cannot depend on which codec is installed", src(r.P.Fset, cc.call), c03Short(ot))
-				} else {
-					r.Bad(c, cc.call.Pos(), "`%s` calls encoding/json directly on a %s: with a user-installed codec this part of the document is still handled by encoding/json (tags, method lookup, key matching by its rules), bypassing the configured codec", src(r.P.Fset, cc.call), c05TypeLabel(ot))
-				}
-			}
-		}
-	}
 }
